@@ -14,6 +14,8 @@ Decision slots (entries of Path.dec):
     ('c', v)            -- concretisation of an integer term to the value v
     ('c?', excl)        -- "concretise to anything not in excl" (pending fork)
 """
+import os
+import sys
 import time
 import threading
 import itertools
@@ -22,6 +24,8 @@ import math
 import z3
 
 INF = float('inf')
+if hasattr(sys, 'set_int_max_str_digits'):
+    sys.set_int_max_str_digits(0)
 
 
 class Abort(BaseException):
@@ -52,9 +56,11 @@ class Path:
 class Ctx:
     """One per worker process and exploration."""
 
-    def __init__(self, timeout_ms=60000, logic=None):
+    def __init__(self, timeout_ms=60000, logic=None, solver_opts=None):
         self.solver = z3.Solver() if logic is None else z3.SolverFor(logic)
         self.solver.set('timeout', timeout_ms)
+        for k, v in (solver_opts or {}).items():
+            self.solver.set(k, v)
         self.timeout_ms = timeout_ms
         self.stack = []          # decisions whose frames are on the solver
         self.nq = 0
@@ -68,14 +74,17 @@ class Ctx:
         self.step_budget = None
 
     # -- raw queries -------------------------------------------------------
-    def check(self, *extra):
+    def check(self, *extra, timeout_ms=None):
         self.nq += 1
         t = time.time()
         if extra:
             self.solver.push()
             self.solver.add(*extra)
+        tmo = timeout_ms or self.timeout_ms
+        if timeout_ms:
+            self.solver.set('timeout', timeout_ms)
         # watchdog: some z3 tactics (nlsat big-number loops) ignore the soft timeout
-        wd = threading.Timer(self.timeout_ms / 1000.0 * 1.5 + 5, z3.main_ctx().interrupt)
+        wd = threading.Timer(tmo / 1000.0 * 1.5 + 5, z3.main_ctx().interrupt)
         wd.daemon = True
         wd.start()
         try:
@@ -84,6 +93,8 @@ class Ctx:
             r = 'unknown'
         finally:
             wd.cancel()
+            if timeout_ms:
+                self.solver.set('timeout', self.timeout_ms)
         if r == 'sat':
             self.n_sat += 1
             self._model = self.solver.model()
@@ -91,9 +102,14 @@ class Ctx:
             self.n_unsat += 1
         else:
             self.n_unknown += 1
+            if os.environ.get('VERIF_DEBUG'):
+                sys.stderr.write('unknown: %s\n' % self.solver.reason_unknown())
         if extra:
             self.solver.pop()
-        self.tq += time.time() - t
+        dt = time.time() - t
+        self.tq += dt
+        if dt > 5 and os.environ.get('VERIF_DEBUG'):
+            sys.stderr.write('slow query %.1fs -> %s (%d extra)\n' % (dt, r, len(extra)))
         return r
 
     def model(self):
@@ -294,6 +310,35 @@ def concretize(e):
     return v
 
 
+def lazy_product(a, b):
+    """a * b; when both factors are non-constant the product is a fresh variable
+    whose definition is a lazy axiom, so that path conditions stay linear"""
+    a = z3.simplify(a)
+    b = z3.simplify(b)
+    if z3.is_rational_value(a) or z3.is_int_value(a) or z3.is_rational_value(b) or z3.is_int_value(b):
+        return a * b
+    tab = CTX.cur.notes.setdefault('prods', {})
+    key = tuple(sorted((a.hash(), b.hash())))
+    if key in tab and ((tab[key][0].eq(a) and tab[key][1].eq(b)) or (tab[key][0].eq(b) and tab[key][1].eq(a))):
+        return tab[key][2]
+    v = z3.Real(fresh_name('prod'))
+    tab[key] = (a, b, v)
+    lazy_axiom(v == _real(a) * _real(b))
+    return v
+
+
+def lazy_axiom(c):
+    """A fact that is true but expensive for the solver (e.g. the nonlinear
+    definition q * d == n of a quotient).  It is kept aside and only added when
+    a claim cannot be proved, or a model is wanted, without it: sound, because
+    a claim valid without the fact is valid with it."""
+    CTX.cur.notes.setdefault('lazy_ax', []).append(c)
+
+
+def _lazy():
+    return list(CTX.cur.notes.get('lazy_ax', ()))
+
+
 def prove(claim, what='property'):
     """Check that claim holds under the current path condition.
     Returns None if it holds, otherwise the z3 model (counterexample)."""
@@ -302,18 +347,33 @@ def prove(claim, what='property'):
     if isinstance(claim, bool):
         if claim:
             return None
-        r = CTX.check()
-        if r == 'sat':
-            return CTX.model()
-        if r == 'unsat':
-            return None
-        raise Inconclusive(what)
-    r = CTX.check(z3.Not(claim))
+        neg = []
+    else:
+        neg = [z3.Not(claim)]
+    r = CTX.check(*neg)
     if r == 'unsat':
         return None
+    lz = _lazy()
+    if lz:
+        if r == 'sat':
+            # cheap attempt: complete the model of the linear abstraction to a model of the definitions
+            sm = _reconstruct(CTX.model(), neg)
+            if sm is not None:
+                return sm
+        r = CTX.check(*(neg + lz))
+        if r == 'unsat':
+            return None
     if r == 'sat':
         return CTX.model()
     raise Inconclusive(what)
+
+
+def _reconstruct(m, extra=()):
+    try:
+        from . import logp
+        return logp.reconstruct(m, extra)
+    except z3.Z3Exception:
+        return None
 
 
 def feasible():
@@ -321,8 +381,22 @@ def feasible():
     return r != 'unsat'
 
 
-def current_model():
-    r = CTX.check()
+def current_model(extra=(), timeout_ms=4000):
+    """a model of the path condition (including the lazy axioms); None when the
+    solver does not produce one quickly -- witnesses are optional"""
+    lz = _lazy()
+    r = CTX.check(*extra)
+    if r != 'sat':
+        return None
+    m = CTX.model()
+    if not lz:
+        return m
+    sm = _reconstruct(m, extra)
+    if sm is not None:
+        return sm
+    if not CTX.cur.notes.get('nonlinear_witness'):
+        return None
+    r = CTX.check(*(list(extra) + lz), timeout_ms=timeout_ms)
     if r == 'sat':
         return CTX.model()
     return None
@@ -344,6 +418,8 @@ def explore(fn, root=(), ctx_=None, max_paths=None):
             todo.extend(p.forks)
             continue
         except Exception as e:  # repo code raised: a result like any other
+            if isinstance(e, NotImplementedError) and _raised_in_shim(e):
+                raise            # a gap of the facade, not behaviour of the repo: harness error
             res = None
             exc = e
         todo.extend(p.forks)
@@ -351,6 +427,15 @@ def explore(fn, root=(), ctx_=None, max_paths=None):
         yield p, res, exc
         if max_paths is not None and n >= max_paths:
             raise RuntimeError('path budget exceeded (%d)' % max_paths)
+
+
+def _raised_in_shim(e):
+    tb = e.__traceback__
+    last = None
+    while tb is not None:
+        last = tb
+        tb = tb.tb_next
+    return last is not None and '/symx/' in last.tb_frame.f_code.co_filename
 
 
 def split_prefixes(fn, target=64, ctx_=None, max_rounds=40):
@@ -629,6 +714,8 @@ class S:
             if b != b:
                 return b
             return ite(self > 0, b, ite(self < 0, -b, float('nan')))
+        if CTX is not None and getattr(CTX, 'lazy_products', False):
+            return S(lazy_product(self.e, b))
         return S(self.e * b)
     __rmul__ = __mul__
 
@@ -1043,7 +1130,10 @@ def uexp(x):
     if _isnum(x):
         return math.exp(x)
     p = CTX.cur
-    xe = _real(x.e)
+    xe = z3.simplify(_real(x.e))
+    if z3.is_rational_value(xe):
+        fr = xe.as_fraction()
+        return 1.0 if fr == 0 else math.exp(float(fr))
     t = _EXPF(xe)
     seen = p.notes.setdefault('exps', [])
     ax = [t > 0]
